@@ -324,6 +324,87 @@ def run_active(args):
     return {"ev": ev, "connected": [bool(suts[1].h.hstrp_connected), bool(suts[2].h.hstrp_connected)], "left": len(q[1]) + len(q[2])}
 
 
+def client_run(wakeups):
+    """worker: the real HRNPClient.go with the endpoints replaced by recording transports and asyncio.sleep by virtual time"""
+    import contextlib
+    import io
+    import logging
+    logging.disable(logging.CRITICAL)
+    core.setup_repo_path()
+    from okdmr.dmrlib.tools.hrnp_client import HRNPClient, HRNPClientConfiguration
+    ports = dict(rrs1=30001, rrs2=30002, gps1=30003, gps2=30004, tel1=30005, tel2=30006, tms1=30007, tms2=30008, rcc1=30009, rcc2=30010,
+                 rvs1=30012, rvs2=30014, e2e1=30017, e2e2=30018, sdmp1=3017, sdmp2=3018)
+    loop = asyncio.new_event_loop()
+    asyncio.set_event_loop(loop)
+    transports = {}
+    waiters = []
+    real_sleep = asyncio.sleep
+
+    async def endpoint(factory, local_addr=None, remote_addr=None, **kw):
+        proto = factory()
+        tr = FakeTransport()
+        transports[local_addr[1]] = tr
+        proto.connection_made(tr)
+        return tr, proto
+
+    async def fake_sleep(delay, result=None):
+        fut = loop.create_future()
+        waiters.append(fut)
+        await fut
+        return result
+    loop.create_datagram_endpoint = endpoint
+    out = {"raised": "", "connects": {}, "wakeups": 0}
+    with contextlib.redirect_stdout(io.StringIO()), contextlib.redirect_stderr(io.StringIO()):
+        try:
+            app = HRNPClient(HRNPClientConfiguration(repeater_ip="10.0.0.1", **ports))
+            asyncio.sleep = fake_sleep
+            task = loop.create_task(app.go())
+            for _ in range(wakeups):
+                loop.run_until_complete(real_sleep(0))
+                loop.run_until_complete(real_sleep(0))
+                if task.done():
+                    break
+                for fut in waiters[:]:
+                    waiters.remove(fut)
+                    fut.set_result(None)
+                out["wakeups"] += 1
+            loop.run_until_complete(real_sleep(0))
+            if task.done() and task.exception() is not None:
+                out["raised"] = type(task.exception()).__name__
+            task.cancel()
+            with contextlib.suppress(BaseException):
+                loop.run_until_complete(task)
+        except Exception as ex:  # noqa
+            out["raised"] = type(ex).__name__
+        finally:
+            asyncio.sleep = real_sleep
+            loop.close()
+    for port, tr in transports.items():
+        out["connects"][str(port)] = sum(1 for d, _ in tr.sent if classify_sent(bytes(d))["f"]["conn"])
+    return out
+
+
+def client_phase(ctx):
+    """growth beyond the statement (spec/MC_HSTRPClient.tla): the client that runs one registration service per timeslot"""
+    seq = core.run_tlc(ctx, "MC_HSTRPClient", "MC_HSTRPClient.cfg", timeout=300, workers=1)
+    both = core.run_tlc(ctx, "MC_HSTRPClient", "MC_HSTRPClient_both.cfg", timeout=300, workers=1)
+    with Pool(1) as pool:
+        obs = pool.apply(client_run, (6,))
+    ctx.note("hrnp_client", {"model_as_written_violates": seq.violated, "model_both_violates": both.violated, "observed": obs})
+    ctx.count(core.digest(["client", obs]))
+    c = obs["connects"]
+    starved = [p for p, n in c.items() if n == 0]
+    model_starves = bool(seq.violated) and "EveryServiceAsksToConnect" in str(seq.violated)
+    if obs["raised"] or len(c) != 2:
+        ctx.model_drift(f"HRNP client: run under virtual time did not open two endpoints or raised: {obs}")
+    elif model_starves != bool(starved):
+        ctx.model_drift(f"HRNP client: model as written {'starves' if model_starves else 'serves'} a service, observed CONNECTs per port {c}")
+    elif starved:
+        ctx.outside(f"HRNP client: HRNPClient.go awaits the first registration service's periodic maintenance, which never returns, so the second "
+                    f"service's maintenance is never started: after {obs['wakeups']} wake-ups the endpoints sent {c} CONNECT requests (port -> count); "
+                    "TLC: EveryServiceAsksToConnect fails for the code as written and holds when both maintenances run")
+
+
 def active_phase(ctx):
     """growth beyond the statement (spec/MC_HSTRPActive.tla): the active peer's timer.  Design: TLC checks that with a quiet
     environment and finitely many losses both ends connect for good, and shows that a CLOSE crossing the connect handshake (or a
@@ -546,6 +627,7 @@ def run(ctx):
     for part in core.chunks(hist, 500):
         judge(ctx, part, ctx.validate_traces("Trace_HSTRP", "Trace_HSTRP.cfg", part), "random history")
     active_phase(ctx)
+    client_phase(ctx)
 
 
 def replay(ctx, rec):
